@@ -516,7 +516,20 @@ def run(ctx):
         kind = KINDS[i % len(KINDS)]
         a, b = gen_random(rng, kind)
         dt = rng.choice(DTYPES)
-        rand_cases.append(("rand-" + kind, a.astype(dt), b.astype(dt)))
+        a, b = a.astype(dt), b.astype(dt)
+        if a.ndim >= 2 and rng.random() < 0.15:
+            # memory layout is not part of a mask: Fortran order / a strided view of one or both arrays
+            lay = rng.choice(["refF", "predF", "bothF", "strided"])
+            if lay in ("refF", "bothF"):
+                a = np.asfortranarray(a)
+            if lay in ("predF", "bothF"):
+                b = np.asfortranarray(b)
+            if lay == "strided":
+                big = np.zeros(tuple(2 * x for x in b.shape), b.dtype)
+                view = big[tuple(slice(0, None, 2) for _ in b.shape)]
+                view[...] = b
+                b = view
+        rand_cases.append(("rand-" + kind, a, b))
     cases += rand_cases
 
     # the model, batched
